@@ -466,7 +466,11 @@ def check(run, prog):
                 rx = _re.compile(rc.pattern, rc.flags)
             except _re.error:
                 continue
-            plain, tri = bool(rx.search("\\\n")), bool(rx.search("??/\n"))
+            # a splice recogniser matches across the newline of the splice (a pattern that merely matches `??` or a backslash
+            # somewhere is not one)
+            def spans_newline(text_):
+                return any("\n" in m_.group(0) and len(m_.group(0)) > 1 for m_ in rx.finditer(text_))
+            plain, tri = spans_newline("\\\n"), spans_newline("??/\n")
             if plain or tri:
                 n_splice += 1
                 run.ob("R-12.2", f"{lexmod.rel}::splice-pattern[{name}]", plain and tri,
